@@ -29,7 +29,9 @@ def enumerate_programs(cfg_text, unfixed=None, timeout=3600, simulate=None,
         rec = tlc.json_payload(line, 'VEC')
         key = json.dumps(rec['prog'], sort_keys=True)
         seen.setdefault(key, rec)
-    return list(seen.values()), res['stats']
+    # TLC's output order depends on its worker threads: sort, so that seeded
+    # sampling downstream is reproducible
+    return [seen[k] for k in sorted(seen)], res['stats']
 
 
 def _observe_chunk(chunk):
